@@ -536,7 +536,9 @@ func c12TTests(c *mc.Check, maxN int) {
 
 // ---- descriptive statistics ----
 
-var c12Vals = []float64{1, 1 + 1.0/(1<<40), 3, -2, 1e8, 1e-8, 1e15 + 1, 0}
+// 1000000.1 and 0.3 have significands for which a weighted average
+// (1-f)·x + f·x of two equal values does not return x.
+var c12Vals = []float64{1, 1 + 1.0/(1<<40), 3, -2, 1e8, 1e-8, 1e15 + 1, 0, 1000000.1, 0.3}
 
 const ulp = 1.0 / (1 << 52)
 
